@@ -100,4 +100,7 @@ Wrappers(s) ==
    \cup {[anyOf |-> <<s, a>>] : a \in AuxSchemas}
    \cup {[oneOf |-> <<s, a>>] : a \in AuxSchemas}
    \cup {[pk |-> <<"x", "y">>, ps |-> <<s, a>>] : a \in {[type |-> "integer"]}}
+   \* a required property that only one side may send: exempt from "required" on the other side
+   \cup {[pk |-> <<"x">>, ps |-> <<[readOnly |-> TRUE] @@ s>>, required |-> <<"x">>],
+         [pk |-> <<"x">>, ps |-> <<[writeOnly |-> TRUE] @@ s>>, required |-> <<"x">>]}
 =============================================================================
